@@ -8,6 +8,7 @@ import (
 	"encoding/json"
 	"fmt"
 	"github.com/jcmturner/gofork/encoding/asn1"
+	goidentity "github.com/jcmturner/goidentity/v6"
 	"io"
 	"log"
 	"net/http"
@@ -293,6 +294,43 @@ func TestC20(t *testing.T) {
 	ls.check("client log(failures)", logbuf.Bytes())
 	logbuf.Reset()
 
+	// --- what the HTTP wrapper hands to the session manager for an accepted request (a session store keeps it, a
+	// cookie store sends it to the client): the identity, not the ticket's session key ---
+	for _, et := range []int32{18, 23, 17} {
+		for _, pacKind := range []string{"", "valid"} {
+			c := baseCase(et)
+			c.pac = pacKind
+			c = uniquify(c, uniqueID())
+			_, b, err := mintAPReq(m, rng, c, time.Now())
+			if err != nil {
+				continue
+			}
+			ls.secrets = append(ls.secrets, newSecret(fmt.Sprintf("session-store-ticket-session-key-%d-%s", et, pacKind), append([]byte{}, lastMintedSessionKey...)))
+			kt0, _ := serviceKeytab()
+			fs := &fakeSessions{mode: "getfails"}
+			var hl bytes.Buffer
+			sp := baseSp(et)
+			sp.ap = c
+			tok, _ := sp.token(b, rng)
+			var seenID []byte
+			h := spnego.SPNEGOKRB5Authenticate(http.HandlerFunc(func(w http.ResponseWriter, r *http.Request) {
+				if id := goidentity.FromHTTPRequestContext(r); id != nil {
+					seenID, _ = id.Marshal()
+				}
+			}), kt0, append(settingsOpts(c), service.SessionManager(fs), service.Logger(log.New(&hl, "", 0)))...)
+			req := httptest.NewRequest("GET", "http://host.test.gokrb5/", nil)
+			req.RemoteAddr = "10.0.0.1:4321"
+			req.Header.Set("Authorization", sp.header(tok))
+			w := httptest.NewRecorder()
+			Protect(func() { h.ServeHTTP(w, req) })
+			if fs.newCalls == 0 {
+				v.Note("session-store surface: the request was not accepted (" + fmt.Sprint(w.Code) + ")")
+			}
+			ls.check("SessionMgr.New value (session store / cookie)", fs.newVal)
+			ls.check("identity.Marshal() of a served request", seenID)
+			ls.check("spnego handler log (accepted request)", hl.Bytes())
+		}
+	}
 	// --- service side: errors and log lines for the defect catalogue ---
 	svcKt, _ := serviceKeytab()
 	for i, e := range svcKt.Entries {
